@@ -104,55 +104,114 @@ Proof.
   apply select_valid_pairs_at.
 Qed.
 
-(* the pairing oracle of a whole run computed by the generated selection: [lx p], [ly p] = the items of the level at path p,
-   [dist p], [loop p] = its distance table and loop oracle (all arbitrary) *)
+(* ------------------------------------------------------------------ *)
+(** * whether pairs are computed: get_pairs / cutoff_intersection_for_pairs / max_passes *)
+From Coq Require Import QArith.
+Close Scope Q_scope.
+
+Theorem g__diff_iterable_with_deephash_pairs_eq :
+  forall (A D : Type) (aeqb : A -> A -> bool) (dltb deqb : D -> D -> bool),
+  (forall x y, aeqb x y = true <-> x = y) ->
+  forall loop dist cutoff cut maxp passes n1 n2 adds rems,
+  g__diff_iterable_with_deephash_pairs A D aeqb dltb deqb loop dist cutoff cut maxp passes n1 n2 adds rems =
+  level_pairs_spec A D aeqb dltb deqb loop dist cutoff cut maxp passes n1 n2 adds rems.
+Proof.
+  intros A D aeqb dltb deqb Ha loop dist cutoff cut maxp passes n1 n2 adds rems.
+  unfold g__diff_iterable_with_deephash_pairs, level_pairs_spec. cbv zeta.
+  rewrite g__get_most_in_common_pairs_in_iterables_eq by exact Ha.
+  fold (get_pairs_spec cut (List.length adds) (List.length rems) n1 n2).
+  destruct (N.ltb passes maxp); destruct (get_pairs_spec cut (List.length adds) (List.length rems) n1 n2); reflexivity.
+Qed.
+
+(* max_passes = 0 or cutoff_intersection_for_pairs <= 0: the level has no pairs, whatever the distances ("pairing off") *)
+Theorem g_pairing_off_no_pairs :
+  forall (A D : Type) (aeqb : A -> A -> bool) (dltb deqb : D -> D -> bool),
+  (forall x y, aeqb x y = true <-> x = y) ->
+  forall loop dist cutoff cut maxp passes n1 n2 adds rems,
+  maxp = 0%N \/ (cut <= 0)%Q ->
+  fst (g__diff_iterable_with_deephash_pairs A D aeqb dltb deqb loop dist cutoff cut maxp passes n1 n2 adds rems) = [].
+Proof. intros. rewrite g__diff_iterable_with_deephash_pairs_eq by assumption. apply level_pairs_off. assumption. Qed.
+
+(* under EVERY setting of cutoff_distance_for_pairs, cutoff_intersection_for_pairs, max_passes and pass counter the dictionary of
+   the level, read the way the harness reads a recorded one, passes [valid_pairs_at] *)
+Theorem g_level_pairs_valid_pairs_at :
+  forall (H : pystr -> pystr) c rep (D : Type) (dltb deqb : D -> D -> bool) xs ys loop (dist : pystr -> pystr -> D) cutoff cut maxp passes n1 n2,
+  let adds := hashes_added H c rep xs ys in
+  let rems := hashes_removed H c rep xs ys in
+  valid_pairs_at H c rep xs ys
+    (idx_pairs (h1 H c rep xs) (h2 H c rep ys)
+       (oracle_of_dict pystr pystr_eqb adds
+          (fst (g__diff_iterable_with_deephash_pairs pystr D pystr_eqb dltb deqb loop dist cutoff cut maxp passes n1 n2 adds rems)))) = true.
+Proof.
+  intros. cbv zeta. rewrite g__diff_iterable_with_deephash_pairs_eq by exact pystr_eqb_spec'.
+  apply level_pairs_valid_pairs_at.
+Qed.
+
+(* the pairing oracle of a whole run computed by the generated definitions: [lx p], [ly p] = the items of the level at path p,
+   [dist p], [loop p] = its distance table and loop oracle, [passes p] = the pass counter when the level is reached (all arbitrary) *)
 Definition g_pairs_oracle (H : pystr -> pystr) c rep (D : Type) (dltb deqb : D -> D -> bool)
-    (lx ly : path -> list value) (loop : path -> pystr -> bool) (dist : path -> pystr -> pystr -> D) (cutoff : D) (p : path) : list (nat * nat) :=
+    (lx ly : path -> list value) (loop : path -> pystr -> bool) (dist : path -> pystr -> pystr -> D) (passes : path -> N)
+    (cutoff : D) (cut : Q) (maxp : N) (p : path) : list (nat * nat) :=
   let adds := hashes_added H c rep (lx p) (ly p) in
   let rems := hashes_removed H c rep (lx p) (ly p) in
   idx_pairs (h1 H c rep (lx p)) (h2 H c rep (ly p))
     (oracle_of_dict pystr pystr_eqb adds
-       (g__get_most_in_common_pairs_in_iterables pystr D pystr_eqb dltb deqb (loop p) (dist p) cutoff adds rems)).
+       (fst (g__diff_iterable_with_deephash_pairs pystr D pystr_eqb dltb deqb (loop p) (dist p) cutoff cut maxp (passes p)
+               (N.of_nat (List.length (t1_hashes H c rep (lx p)))) (N.of_nat (List.length (t2_hashes H c rep (ly p)))) adds rems))).
 
 Theorem g_pairs_oracle_valid :
-  forall H c rep D dltb deqb lx ly loop dist cutoff p,
-  valid_pairs_at H c rep (lx p) (ly p) (g_pairs_oracle H c rep D dltb deqb lx ly loop dist cutoff p) = true.
-Proof. intros. unfold g_pairs_oracle. apply g_pairs_valid_pairs_at. Qed.
+  forall H c rep D dltb deqb lx ly loop dist passes cutoff cut maxp p,
+  valid_pairs_at H c rep (lx p) (ly p) (g_pairs_oracle H c rep D dltb deqb lx ly loop dist passes cutoff cut maxp p) = true.
+Proof. intros. unfold g_pairs_oracle. apply g_level_pairs_valid_pairs_at. Qed.
+
+(* pairing off: the oracle is the empty one at every level *)
+Theorem g_pairs_oracle_off :
+  forall H c rep D dltb deqb lx ly loop dist passes cutoff cut maxp p,
+  maxp = 0%N \/ (cut <= 0)%Q ->
+  g_pairs_oracle H c rep D dltb deqb lx ly loop dist passes cutoff cut maxp p = [].
+Proof.
+  intros. unfold g_pairs_oracle. cbv zeta. rewrite g_pairing_off_no_pairs; [|exact pystr_eqb_spec'|assumption].
+  assert (E0 : forall l, oracle_of_dict pystr pystr_eqb l [] = []).
+  { unfold oracle_of_dict. induction l as [|a l IH]; [reflexivity|exact IH]. }
+  rewrite E0. reflexivity.
+Qed.
 
 From DD Require Import Hash.Equiv Hash.HashProofsC07 Properties.C05.
 
-(* the main theorems of Properties/C05.v with the pairing of every level computed by the GENERATED selection *)
+(* the main theorems of Properties/C05.v with the pairing of every level computed by the GENERATED definitions *)
 Theorem g_C05_verdict_partial :
   forall (H : pystr -> pystr),
   (forall s, s <> [] -> sepfree (H s)) -> (forall s t, H s = H t -> s = t) ->
-  forall udiff excl c rep D dltb deqb lx ly loop dist cutoff t1 t2,
+  forall udiff excl c rep D dltb deqb lx ly loop dist passes cutoff cut maxp t1 t2,
   thr_num c <= thr_den c ->
   wf t1 = true -> wf t2 = true -> tag_safe t1 = true -> tag_safe t2 = true -> alias_free2 t1 t2 = true ->
-  (fst (run_diff_io H udiff no_skip excl c rep (g_pairs_oracle H c rep D dltb deqb lx ly loop dist cutoff) t1 t2) = [] <->
+  (fst (run_diff_io H udiff no_skip excl c rep (g_pairs_oracle H c rep D dltb deqb lx ly loop dist passes cutoff cut maxp) t1 t2) = [] <->
    eqv (io_opts c rep) t1 t2).
 Proof. intros. apply C05_verdict_partial; assumption. Qed.
 
 Theorem g_C05_different_hash_nonempty :
   forall (H : pystr -> pystr),
   (forall s, s <> [] -> sepfree (H s)) -> (forall s t, H s = H t -> s = t) ->
-  forall udiff excl c rep D dltb deqb lx ly loop dist cutoff t1 t2 p1 p2,
+  forall udiff excl c rep D dltb deqb lx ly loop dist passes cutoff cut maxp t1 t2 p1 p2,
   wf t1 = true -> wf t2 = true -> tag_safe t1 = true -> tag_safe t2 = true -> alias_free2 t1 t2 = true ->
   hash_pure H (io_opts c rep) t1 <> hash_pure H (io_opts c rep) t2 ->
-  fst (diff_io H udiff no_skip excl c rep (g_pairs_oracle H c rep D dltb deqb lx ly loop dist cutoff) t1 t2 p1 p2) <> [].
+  fst (diff_io H udiff no_skip excl c rep (g_pairs_oracle H c rep D dltb deqb lx ly loop dist passes cutoff cut maxp) t1 t2 p1 p2) <> [].
 Proof. intros. apply C05_different_hash_nonempty; assumption. Qed.
 
-(* two runs whose cut-offs, distance tables and loop oracles differ agree on the verdict *)
+(* two runs whose cutoff_distance_for_pairs, cutoff_intersection_for_pairs, max_passes, pass counters, distance tables and loop
+   oracles differ agree on the verdict *)
 Theorem g_C05_knob_independence :
   forall (H : pystr -> pystr),
   (forall s, s <> [] -> sepfree (H s)) -> (forall s t, H s = H t -> s = t) ->
-  forall udiff udiff' excl excl' c c' rep D dltb deqb lx ly loop loop' dist dist' cutoff cutoff' t1 t2,
+  forall udiff udiff' excl excl' c c' rep D dltb deqb lx ly loop loop' dist dist' passes passes' cutoff cutoff' cut cut' maxp maxp' t1 t2,
   thr_num c <= thr_den c -> thr_num c' <= thr_den c' ->
   DiffModel.ignore_private c = DiffModel.ignore_private c' ->
   wf t1 = true -> wf t2 = true -> tag_safe t1 = true -> tag_safe t2 = true -> alias_free2 t1 t2 = true ->
-  (fst (run_diff_io H udiff no_skip excl c rep (g_pairs_oracle H c rep D dltb deqb lx ly loop dist cutoff) t1 t2) = [] <->
-   fst (run_diff_io H udiff' no_skip excl' c' rep (g_pairs_oracle H c' rep D dltb deqb lx ly loop' dist' cutoff') t1 t2) = []).
+  (fst (run_diff_io H udiff no_skip excl c rep (g_pairs_oracle H c rep D dltb deqb lx ly loop dist passes cutoff cut maxp) t1 t2) = [] <->
+   fst (run_diff_io H udiff' no_skip excl' c' rep (g_pairs_oracle H c' rep D dltb deqb lx ly loop' dist' passes' cutoff' cut' maxp') t1 t2) = []).
 Proof. intros. apply C05_knob_independence; assumption. Qed.
 
 Print Assumptions g_pairs_is_matching.
-Definition all_transfer := (g_pairs_valid_pairs_at, g_pairs_oracle_valid, g_C05_verdict_partial, g_C05_different_hash_nonempty, g_C05_knob_independence).
+Definition all_transfer := (g_pairs_valid_pairs_at, g__diff_iterable_with_deephash_pairs_eq, g_pairing_off_no_pairs, g_level_pairs_valid_pairs_at,
+  g_pairs_oracle_valid, g_pairs_oracle_off, g_C05_verdict_partial, g_C05_different_hash_nonempty, g_C05_knob_independence).
 Print Assumptions all_transfer.
